@@ -409,7 +409,7 @@ def cat_labels(cat):
 # --------------------------------------------------------------------------
 ALWAYS_ITERABLE = ('labels', 'ids')          # documented as "always an iterable"
 ERR = {'TypeError': 1, 'IndexError': 2, 'ValueError': 3, 'AttributeError': 4}
-POOL = ['x0', 'x1', 'x2', 'x3', 'c1_flux', 'c1_fluxerr', 'k1_flux', 'k1_fluxerr', 'ff1']
+POOL = ['x0', 'x1', 'x2', 'x3', 'c1_flux', 'c1_fluxerr', 'k1_flux', 'k1_fluxerr', 'ff1', 'x4', 'x5', 'y0', 'y1']
 METHODS = {   # pseudo-properties: method name, argument, index in the returned tuple
     'M:circ:1.5:flux': ('circular_photometry', 1.5, 0), 'M:circ:1.5:fluxerr': ('circular_photometry', 1.5, 1),
     'M:circ:3.0:flux': ('circular_photometry', 3.0, 0), 'M:circ:3.0:fluxerr': ('circular_photometry', 3.0, 1),
@@ -721,6 +721,8 @@ def execute(desc):
     lazyset = set(info['lazy'])
     cats = [S.build()]
     srcs = {0: list(range(S.n))}   # catalog -> positions of its sources in the root catalog
+    exp = {0: []}     # catalog -> the extra_properties list it must report (order included), maintained from
+    #                   the documented effect of every SUCCESSFUL registry operation (independent of the model)
     rel = {}          # child -> (parent, positions, scalar)
     ops, obs, viol = [], [], []
     final = {}        # cat -> {public property: per-source canon list}
@@ -830,13 +832,21 @@ def execute(desc):
                         rel[len(cats)] = (j, pos, scalar)
                         if j in srcs:
                             srcs[len(cats)] = [srcs[j][i] for i in pos]
+                        # V: the child registers exactly the parent's extra properties, in order
+                        if desc['cls'] == 'sc' and j in exp:
+                            exp[len(cats)] = list(exp[j])
+                            if list(ch.extra_properties) != exp[j] or list(c.extra_properties) != exp[j]:
+                                viol.append((f'{cname}.__getitem__:extra_properties-wrong',
+                                             f'after indexing, parent lists {list(c.extra_properties)} and child '
+                                             f'lists {list(ch.extra_properties)}; registered (in order): {exp[j]}',
+                                             {'case': desc, 'child': len(cats)}, True))
                         # V: extra properties are sliced like built-in ones
-                        for k in (list(c.extra_properties) if desc['cls'] == 'sc' else []):
+                        for k in ((exp[j] if j in exp else list(c.extra_properties)) if desc['cls'] == 'sc' else []):
                             if k not in c.__dict__:
                                 continue
                             try:
                                 want = [elem_canons(k, c.__dict__[k])[i] for i in pos]
-                                got = ([canon(ch.__dict__[k])] if scalar else elem_canons(k, ch.__dict__[k])) \
+                                got = ([canon(getattr(ch, k))] if scalar else elem_canons(k, getattr(ch, k))) \
                                     if k in ch.extra_properties else None
                             except Exception as e:
                                 got, want = f'{type(e).__name__}', 'values'
@@ -863,6 +873,11 @@ def execute(desc):
                     obs.append('IUnit')
                 except Exception as e:
                     obs.append(f'(IErr {ERR.get(type(e).__name__, 99)})')
+                    if j in exp and all(k in c.__dict__ for k in exp[j]):
+                        viol.append((f'{cname}.to_table:raises-on-extra_properties',
+                                     f'to_table(columns=extra_properties) raises {type(e).__name__} although every '
+                                     f'registered extra property {exp[j]} is an attribute (extra_properties = '
+                                     f'{list(c.extra_properties)})', {'case': desc, 'cat': j}, True))
             else:     # mutating operations: add / remove / rename / phot
                 others = {k: snapshot(S, x) for k, x in enumerate(cats) if k != j} if desc['cls'] == 'sc' else {}
                 before = keys(c)
@@ -917,6 +932,38 @@ def execute(desc):
                                          {'case': desc, 'op': od, 'cat': j}, True))
                 else:
                     obs.append('IUnit')
+                # V: the registry after a successful operation is what the operation documents
+                if desc['cls'] == 'sc' and j in exp:
+                    gone = []
+                    if err is None:
+                        if o == 'add' and not od['overwrite']:
+                            exp[j].append(od['name'])
+                        elif o == 'remove':
+                            for k in od['names']:
+                                exp[j].remove(k) if k in exp[j] else None
+                            gone = list(od['names'])
+                        elif o == 'rename':
+                            if od['name'] in exp[j]:
+                                exp[j][exp[j].index(od['name'])] = od['new']
+                            gone = [od['name']]
+                        elif o == 'phot' and od.get('name') and not od.get('overwrite', False) \
+                                and PHOT[od['arg']][1] is not None:
+                            exp[j] += [od['name'] + s_ for s_ in PHOT[od['arg']][1]]
+                        meth = {'add': 'add_extra_property', 'remove': 'remove_extra_properties',
+                                'rename': 'rename_extra_property'}.get(o) or METHODS[PHOT[od['arg']][0][0]][0]
+                        now_l = list(c.extra_properties)
+                        if now_l != exp[j]:
+                            viol.append((f'{cname}.{meth}:extra_properties-wrong',
+                                         f'after {meth} ({ {k: v for k, v in od.items() if k not in ("op", "j", "val")} }) '
+                                         f'extra_properties is {now_l}, expected {exp[j]} (order included)',
+                                         {'case': desc, 'op': od, 'cat': j}, True))
+                        missing = [k for k in exp[j] if k not in c.__dict__]
+                        leaked = [k for k in gone if k in c.__dict__ and k not in exp[j]]
+                        if missing or leaked:
+                            viol.append((f'{cname}.{meth}:extra-attribute-mismatch',
+                                         f'after {meth}: registered without attribute {missing}; removed/renamed names '
+                                         f'still attributes {leaked}', {'case': desc, 'op': od, 'cat': j}, True))
+                    exp[j] = list(c.extra_properties)      # failed operations may have partial effects (model only)
                 # V: independence — the other catalogs report what they reported before
                 for k, snap in others.items():
                     nsnap[0] += 1
@@ -985,6 +1032,8 @@ def gen_case(rng, cls, scene_seed, cfg, S):
         for p in rng.sample(lazy_ok, min(k, len(lazy_ok))):
             ops.append({'op': 'eval', 'j': j, 'p': p})
 
+    reg = {0: []}
+
     def extras_op(j):
         labs, scalar = cats[j]
         c = rng.random()
@@ -1020,6 +1069,7 @@ def gen_case(rng, cls, scene_seed, cfg, S):
         pos, sc = index_positions(d, len(labs), labs)
         ops.append({'op': 'index', 'j': j, 'idx': d})
         cats.append(([labs[i] for i in pos], sc))
+        reg[len(cats) - 1] = list(reg.get(j, []))
         return len(cats) - 1
 
     def do_index_explicit(j, d):
@@ -1027,7 +1077,79 @@ def gen_case(rng, cls, scene_seed, cfg, S):
         pos, sc = index_positions(d, len(labs), labs)
         ops.append({'op': 'index', 'j': j, 'idx': d})
         cats.append(([labs[i] for i in pos], sc))
+        reg[len(cats) - 1] = list(reg.get(j, []))
         return len(cats) - 1
+
+    def good_value(j):
+        kinds = ['scalar', 'len1', 'scalar'] if cats[j][1] else ['arr', 'arr', 'qty', 'list', 'tuple']
+        if len(cats[j][0]) == 1 and not cats[j][1]:
+            kinds.append('len1')
+        return {'kind': rng.choice(kinds), 'base': rng.randint(1, 9)}
+
+    def extras_block(j):
+        """A coherent walk over the extra-property API on catalog j: several registrations, renames
+        of the first / a middle / the last registered name, overwrites, removals (one, several, all),
+        interleaved with observations and indexings.  [reg] is the generator's idea of the registry
+        (only used to pick names that make the operations succeed)."""
+        r = reg.setdefault(j, [])
+
+        def fresh_name():
+            free = [x for x in POOL if x not in r and not x.endswith(('_flux', '_fluxerr')) and x != 'ff1']
+            return rng.choice(free) if free else None
+
+        def look():
+            ops.append({'op': 'extras', 'j': j})
+            if rng.random() < 0.6:
+                ops.append({'op': 'table', 'j': j})
+
+        for _ in range(rng.randint(2, 4)):                      # register several
+            nm = fresh_name()
+            if nm is None:
+                break
+            if rng.random() < 0.2 and not S.bad_methods and 'c1_flux' not in r:
+                ops.append({'op': 'phot', 'j': j, 'arg': 'circ:1.5', 'name': 'c1', 'overwrite': False})
+                r += ['c1_flux', 'c1_fluxerr']
+            else:
+                ops.append({'op': 'add', 'j': j, 'name': nm, 'val': good_value(j), 'overwrite': False})
+                r.append(nm)
+        look()
+        for _ in range(rng.randint(2, 5)):
+            c = rng.random()
+            if c < 0.4 and r:                                   # rename first / middle / last
+                where = rng.choice(['first', 'middle', 'last'])
+                i = {'first': 0, 'last': len(r) - 1, 'middle': len(r) // 2 if len(r) < 3 else rng.randrange(1, len(r) - 1)}[where]
+                new = fresh_name()
+                if new is not None:
+                    ops.append({'op': 'rename', 'j': j, 'name': r[i], 'new': new})
+                    r[i] = new
+            elif c < 0.55 and r:                                # overwrite a registered property
+                ops.append({'op': 'add', 'j': j, 'name': rng.choice(r), 'val': good_value(j), 'overwrite': True})
+            elif c < 0.75 and r:                                # remove one / several / all
+                how = rng.choice(['one', 'one', 'some', 'all'])
+                names = [rng.choice(r)] if how == 'one' else (list(r) if how == 'all' else
+                                                              rng.sample(r, min(len(r), 2)))
+                ops.append({'op': 'remove', 'j': j, 'names': names})
+                for k in names:
+                    r.remove(k)
+            elif c < 0.9:
+                nm = fresh_name()
+                if nm is not None:
+                    ops.append({'op': 'add', 'j': j, 'name': nm, 'val': good_value(j), 'overwrite': False})
+                    r.append(nm)
+            elif len(cats) < 7 and not cats[j][1]:              # slice the catalog that carries the extras
+                ch = do_index(j)
+                ops.append({'op': 'extras', 'j': ch})
+                ops.append({'op': 'table', 'j': ch})
+            look()
+            if rng.random() < 0.5:
+                observe_others(j)
+        if len(cats) < 7 and not cats[j][1] and rng.random() < 0.7:
+            ch = do_index(j)
+            ops.append({'op': 'dict', 'j': ch})
+            ops.append({'op': 'extras', 'j': ch})
+            ops.append({'op': 'table', 'j': ch})
+            if rng.random() < 0.5:
+                extras_block(ch) if rng.random() < 0.4 else observe_others(ch)
 
     def reorder_then_lookup():
         """Rows reordered by a permutation that is not its own inverse (3-cycles, sorted-by-property
@@ -1082,7 +1204,10 @@ def gen_case(rng, cls, scene_seed, cfg, S):
         ops.append({'op': 'phot', 'j': j, 'arg': arg, 'name': name, 'overwrite': True})
 
     storm = cls == 'sc' and rng.random() < 0.5
+    xblock = cls == 'sc' and rng.random() < 0.6
     if cls == 'sc':
+        if xblock and rng.random() < 0.6:
+            extras_block(0)
         for _ in range(rng.choice([0, 0, 1, 2, 3])):
             extras_op(0)
         if storm and rng.random() < 0.7:
@@ -1118,6 +1243,9 @@ def gen_case(rng, cls, scene_seed, cfg, S):
                           {'kind': 'getn', 'labels': [cats[j][0][0], 98]}])
         ops.append({'op': 'index', 'j': j, 'idx': bad, 'invalid': True})
         ops.append({'op': 'dict', 'j': j})
+    if xblock:
+        for _ in range(rng.choice([1, 1, 2])):
+            extras_block(rng.randrange(len(cats)))
     if storm:
         # photometry methods with arguments that exercise the retry / failure branches, repeated on
         # parent and children in both orders (results are compared with a fresh catalog; the deep
@@ -1217,7 +1345,9 @@ def run(ctx):
                        'wcs/localbkg_width/kron_params(2,3)/apermask_method/detection_cat/units): random subset of '
                        'lazyproperties evaluated first, every index form, slices of slices, rows reordered by non-involutive '
                        'permutations / sorted-by-property orders followed by get_label(s)/get_id(s) lookups (scalars, '
-                       'shuffled lists, repeats), extra-property and '
+                       'shuffled lists, repeats), walks over the extra-property API (several registrations, rename of the '
+                       'first/middle/last name, overwrite, remove one/several/all, interleaved with indexing, '
+                       'extra_properties and to_table), extra-property and '
                        'photometry operations on parent or child, then every public property read on every catalog; '
                        'non-trivial = at least one successful indexing; distinct = distinct (scene, config, history)')
     ctx.assumptions += ['the body of a property is not modelled: which other lazyproperties it runs is observed '
@@ -1230,7 +1360,7 @@ def run(ctx):
         'in-place modification of cached arrays/objects shared between parent and slice (numpy views, the cached '
         'CircularAperture of _fluxfrac_optimizer_args): not modelled; covered by the direct oracle only']
     quick = ctx.tier == 'quick'
-    nscene = 9 if quick else 70
+    nscene = 8 if quick else 60
     per_cfg = 5 if quick else 8
     descs = []
     import json
